@@ -14,6 +14,6 @@ CONSTANTS
   MaxZombie = 0
   MaxSnap = 1
   MaxForeign = 1
-  Keeps = {100}
+  Keeps = {10240}
   Eager = TRUE
 CHECK_DEADLOCK FALSE
